@@ -28,6 +28,8 @@ type scenario struct {
 	// caseCost 1 counts a non-first ready select arm as a deviation (used where a long
 	// queue can be drained arm by arm, which otherwise multiplies the schedules)
 	caseCost int
+	maxExecQ int // per-member execution caps (0 = default)
+	maxExecT int
 }
 
 // result carries observations out of an execution (reset per execution).
@@ -111,6 +113,13 @@ func main() {
 			if hc.Thorough() {
 				maxExec = 200000
 			}
+			if sc.maxExecQ > 0 && !hc.Thorough() {
+				maxExec = sc.maxExecQ
+			}
+			if sc.maxExecT > 0 && hc.Thorough() {
+				maxExec = sc.maxExecT
+			}
+			verifrt.HashStates = *prop != "C10"
 			ex := &verifrt.Explorer{Bound: bound, MaxExec: maxExec, Stop: w.Expired, Prune: *prop != "C10", CaseCost: sc.caseCost,
 				Prog: func() {
 					res.reset()
@@ -149,7 +158,9 @@ func main() {
 			for k := range ex.Distinct {
 				w.Distinct(hc.Hash(sc.name, p, k))
 			}
-			if ex.Capped {
+			if ex.Capped && *prop == "C10" {
+				w.Count("members_capped", 1)
+			} else if ex.Capped {
 				w.NotExhaustive(fmt.Sprintf("%s/%s: execution cap reached after %d schedules (preemption bound %d not completed)", sc.name, p, ex.Execs, bound))
 			}
 			if len(w.R.Samples) < 4 && ex.Execs > 1 {
@@ -169,6 +180,9 @@ func main() {
 					map[string]interface{}{"Scenario": sc.name, "Param": p, "Choices": f.Choices})
 			}
 		}
+	}
+	if *prop == "C10" && w.R.Counters["members_capped"] > 0 {
+		w.NotExhaustive(fmt.Sprintf("%d programs reached their per-program schedule cap before completing the deviation bound (race detection is happens-before based, so one schedule per code path suffices; the bound only serves to reach paths)", w.R.Counters["members_capped"]))
 	}
 	w.Finish()
 }
